@@ -19,6 +19,7 @@ def exc_info(e):
     cubed_frames = [f for f in frames if "/cubed/" in f[0]]
     last = cubed_frames[-1] if cubed_frames else (frames[-1] if frames else ("?", 0, "?"))
     return {
+        "node": getattr(e, "_verif_node", None),
         "type": type(e).__name__,
         "mro": [c.__name__ for c in type(e).__mro__],
         "msg": str(e)[:400],
@@ -79,7 +80,7 @@ def outputs_of(recipe, vals):
     return outs
 
 
-def run_recipe(recipe, cfg, workdir, monitors=("block", "trace"), expected=None, keep_vals=False):
+def run_recipe(recipe, cfg, workdir, monitors=("block", "trace"), expected=None, keep_vals=False, max_tasks=400):
     """cfg: {"executor": name, "executor_opts": {}, "optimize": bool, "optimizer": {...}, "spec": {...}}
 
     Returns observation record (JSON-able except 'results' np arrays).
@@ -115,6 +116,10 @@ def run_recipe(recipe, cfg, workdir, monitors=("block", "trace"), expected=None,
         }
     except Exception as e:
         rec["exc"] = exc_info(e)
+        return rec
+    if max_tasks is not None and fp.num_tasks > max_tasks:
+        rec["phase"] = "skipped"
+        rec["skipped"] = f"plan has {fp.num_tasks} tasks > {max_tasks}"
         return rec
     rec["phase"] = "execute"
     inner = make_executor(cfg.get("executor", "single-threaded"), cfg.get("executor_opts"))
@@ -164,6 +169,23 @@ def check_values(recipe, np_vals, rec):
             d = oracle.compare(e, g)
         if d:
             diffs.append({"output": i, "op": node["op"], "diff": d})
+    # decompositions: reconstruction oracle over all factors
+    parents = {}
+    for k, i in enumerate(recipe["outputs"]):
+        node = recipe["nodes"][i]
+        if node["op"] == "pick" and recipe["nodes"][node["in"][0]]["op"] in ("qr", "svd"):
+            parents.setdefault(node["in"][0], {})[node["p"]["i"]] = rec["results"][k]
+    for par, got in parents.items():
+        pn = recipe["nodes"][par]
+        a = np_vals[pn["in"][0]]
+        if pn["op"] == "qr" and len(got) == 2:
+            d = oracle.compare_qr(a, got[0], got[1])
+        elif pn["op"] == "svd" and len(got) == 3:
+            d = oracle.compare_svd(a, got[0], got[1], got[2])
+        else:
+            d = None
+        if d:
+            diffs.append({"output": par, "op": pn["op"], "diff": d})
     return diffs
 
 
